@@ -52,10 +52,7 @@ def main():
         print("MACHINERY-ERROR no check for property %s (%s)" % (args.prop, e))
         sys.exit(3)
     if args.replay:
-        rc = runner.replay(mod, args.prop, args.replay)
-        sys.stdout.flush()
-        sys.stderr.flush()
-        os._exit(rc)
+        _leave(runner.replay(mod, args.prop, args.replay))
     try:
         code = runner.run_property(mod, args.prop, args.tier, seed, build, t0, skip_d=args.no_d, skip_b=args.no_b, only=args.only)
     except SystemExit:
@@ -66,8 +63,21 @@ def main():
         code = 3
     # leave without running interpreter teardown: z3's Python objects (contexts, cached ASTs) and the compiled whatshap/pysam modules have been seen to crash
     # during finalisation (exit status -11 after a complete, correct run); everything is flushed and written at this point
+    _leave(code)
+
+
+def _leave(code):
+    """flush, stop every worker process this run started (they would keep the caller's pipes open), leave without interpreter teardown"""
     sys.stdout.flush()
     sys.stderr.flush()
+    try:
+        import multiprocessing
+        for p in multiprocessing.active_children():
+            p.kill()
+        for p in multiprocessing.active_children():
+            p.join(2)
+    except Exception:
+        pass
     os._exit(code)
 
 
